@@ -5,4 +5,5 @@ MCProcs == {1, 2}
 MCProg == (1 :> <<[api |-> "touch", key |-> "k", val |-> "", chunks |-> 0]>>) @@
           (2 :> <<[api |-> "put", key |-> "k", val |-> "b", chunks |-> 1]>>)
 MCPre == {}
+NoDebris == {}
 ====
